@@ -1,0 +1,45 @@
+//go:build verif
+
+package funcs
+
+import (
+	"reflect"
+	"runtime"
+	"sort"
+)
+
+// VerifEntry describes one entry of a process-wide function table. It exists
+// only in builds with the "verif" tag and lets an external monitor observe the
+// tables themselves (not the per-Compile clones).
+type VerifEntry struct {
+	Table    string // "base" or "experimental"
+	Name     string
+	MinArity int
+	MaxArity int
+	FuncPtr  uintptr
+	FuncName string
+}
+
+// VerifTables returns a snapshot of the process-wide function tables, sorted.
+func VerifTables() []VerifEntry {
+	var out []VerifEntry
+	add := func(table string, t FunctionTable) {
+		for name, fn := range t {
+			ptr := reflect.ValueOf(fn.Func).Pointer()
+			fname := ""
+			if f := runtime.FuncForPC(ptr); f != nil {
+				fname = f.Name()
+			}
+			out = append(out, VerifEntry{Table: table, Name: name, MinArity: fn.MinArity, MaxArity: fn.MaxArity, FuncPtr: ptr, FuncName: fname})
+		}
+	}
+	add("base", baseTable)
+	add("experimental", experimentalTable)
+	sort.Slice(out, func(i, j int) bool {
+		if out[i].Table != out[j].Table {
+			return out[i].Table < out[j].Table
+		}
+		return out[i].Name < out[j].Name
+	})
+	return out
+}
